@@ -207,7 +207,16 @@ func (s *Sim) registerCallbacks(o *objRT) {
 	o.el.OnDemote(func() {
 		s.mu.Lock()
 		o.d++
-		s.tr.CBs = append(s.tr.CBs, &CB{Seq: s.nextSeq(), T: s.now(), Obj: o.idx, Inst: o.in.idx, Kind: "demote-enter", Token: o.el.Token(), Gid: gid()})
+		done := -1
+		for _, t := range s.tr.Terms {
+			if t.Obj == o.idx {
+				done = 0
+				if t.Ctx.Err() != nil {
+					done = 1
+				}
+			}
+		}
+		s.tr.CBs = append(s.tr.CBs, &CB{Seq: s.nextSeq(), T: s.now(), Obj: o.idx, Inst: o.in.idx, Kind: "demote-enter", Token: o.el.Token(), Gid: gid(), TermCtxDone: done})
 		s.mu.Unlock()
 		s.sleepI(sp.DemoteDur)
 		s.mu.Lock()
